@@ -13,5 +13,19 @@ PROPS = {
         "trusted": ["_addcarry_u64/_subborrow_u64 = adc/sbb on Nat digits (NB.adc, NB.sbb)",
                     "asm block routine modelled as a chained adc/sbb over the first w*(len/d) digits (w from the generated instruction list, d from `size /= d`)"],
         "assumptions": COMMON_ASSUME,
+        "level_text": "Theorems addAssign_spec, addRef_spec, subAssign_spec, subRefVal_spec, checkedSub_spec, bigint_add_spec, bigint_sub_spec: for ALL canonical operands (any length, digit content, sign pair) the model of each code path returns exactly the canonical representation of the mathematical sum/difference, and BigUint subtraction fails exactly when a<b. The model is tied to the source by regenerated asm/block parameters (proof obligation gen_params_valid_addsub) and by a 3-way differential run on structured carry/borrow patterns.",
+        "level_note": "Trusted: Lean kernel + {propext, Classical.choice, Quot.sound}; adc/sbb intrinsics and the asm block routine are modelled (chained adc/sbb on Nat digits); Vec/ownership not modelled; correspondence strength bounded by the generators.",
     },
 }
+
+NOT_CLAIMED = {}
+
+if __name__ == "__main__":
+    import sys
+    if "--lean-modules" in sys.argv:
+        mods = []
+        for p in PROPS.values():
+            for m in p.get("lean", []):
+                if m not in mods:
+                    mods.append(m)
+        print(" ".join(mods))
